@@ -2,12 +2,14 @@
 
 mod case;
 mod corpus;
+mod detalloc;
 mod driver;
 mod engine;
 mod engine_cli;
 mod engine_fsfault;
 mod engine_imports;
 mod engine_logger;
+mod engine_sched;
 mod gen_project;
 mod job;
 mod prng;
@@ -20,6 +22,9 @@ mod worker;
 use std::sync::Arc;
 
 use engine::Ctx;
+
+#[global_allocator]
+static GLOBAL: detalloc::DetAlloc = detalloc::DetAlloc;
 
 pub const DEFAULT_SEED: u64 = 20260923;
 
